@@ -79,6 +79,40 @@ CHECKS.update({
         technique="TLA+ spec + exhaustive statement-level fault enumeration + TLC trace validation"),
 })
 
+CHECKS.update({
+    "C13": dict(
+        category="model_checking",
+        text="SchemaDetect.tla is the decision table (18 supported triples, 1.18.0 variant marker, four layout presence "
+             "combinations); TLC checks the table's own properties and emits every state of the box around the supported "
+             "versions; each state is materialised as a directory and load_database (with two sentinel values of the "
+             "out-parameter), database_exists and create_or_load_database are validated by TLC against the table.",
+        design="§7 C13",
+        note="box: major 0..4 x 19 minors x patch 0..4 x 2 variants x 4 presence combinations, plus seed-chosen far triples; "
+             "cross-layout cases are loose by design; " + TRUST,
+        technique="TLA+ decision table + TLC enumeration of the box + replay of every state + TLC trace validation"),
+    "C19": dict(
+        category="proof",
+        text="Waveform.tla defines the quantisation number and both extents over the integers; WaveformProofs.tla proves Covers, "
+             "Minimal, EmptyIff, the overview span bracket and monotonicity for ALL naturals with TLAPS; TLC re-evaluates them on "
+             "a box; the compiled functions are bound to the specification differentially: every box state plus seed-chosen "
+             "points is executed and TLC (31-bit) / Apalache (up to 2^62, unbounded integers) validate each result against the "
+             "definitions.",
+        design="§7 C19",
+        note="floor(rate) and the integer rendering of doubles are done by the harness; above 2^53 the overview samples-per-entry "
+             "is required to be a nearest 53-bit value; " + TRUST + "; tlapm back-ends Z3/Zenon/Isabelle; Apalache 0.58",
+        technique="TLAPS proof of the arithmetic + TLC box check + differential trace validation (TLC, Apalache for wide integers)"),
+    "C20": dict(
+        category="model_checking",
+        text="Beatgrid.tla states the property as predicates over input and output (PostOK, Normalisable, MustReject) and a model "
+             "of the algorithm over exact integer arithmetic; TLC builds every small strictly increasing grid, checks the model "
+             "against the property (incl. idempotence) and emits each (grid, sample count); the compiled function is run on all "
+             "of them plus seed-chosen grids of up to 64 markers, and TLC validates result, rejection and fixed point.",
+        design="§7 C20",
+        note="only grids with integer-valued tempi are compared (exact double arithmetic); rounding for other tempi is outside "
+             "TLA+; " + TRUST,
+        technique="TLA+ spec + TLC enumeration of all small grids + replay + TLC trace validation of results"),
+})
+
 NOT_YET = "check not built yet (work in progress)"
 NA = {
     "C12": "static comparison of two DDL texts modulo whitespace/quoting: no state, no transitions, nothing for TLC to explore "
